@@ -11,7 +11,7 @@ import (
 // symbolic keys, two map ranges in any order, sort.Sort) is executed from SSA.
 
 // vhSlots builds a snapshot with n scalar argument slots; slot i lives in
-// goroutine g[i] (0..2), frame 0; the last slot sits inside a nested aggregate.
+// goroutine g[i] (0..2), frame 0; the first and the last slot sit inside nested aggregates.
 // Values are symbolic 64-bit words; IsPtr is set as the parser sets it.
 func vhSlots(g []int, tagp string) (*Snapshot, []*Arg) { return vhSlotsN(g, tagp, false) }
 
@@ -35,7 +35,9 @@ func vhSlotsN(g []int, tagp string, narrow bool) (*Snapshot, []*Arg) {
 		}
 		a := Arg{Value: v, IsPtr: vAnd(v > pointerFloor, v < pointerCeiling)}
 		args := &s.Goroutines[gi].Stack.Calls[0].Args
-		if i == len(g)-1 {
+		if i == len(g)-1 || (i == 0 && len(g) >= 3) {
+			// the first and the last slot sit inside nested aggregates: arguments
+			// follow an aggregate and precede one
 			args.Values = append(args.Values, Arg{IsAggregate: true, Fields: Args{Values: []Arg{{Value: 1}, a}}})
 		} else {
 			args.Values = append(args.Values, a)
@@ -213,12 +215,13 @@ func VH_C06_PrefixDeterministic(np, n1, n2 int) {
 //
 // tail: 0 = the stream ends after the dump; 1 = the dump continues with a
 // malformed goroutine (the snapshot comes back together with a parse error);
-// 2 = the reader fails with an error other than EOF. The snapshot returned is
+// 2 = the reader fails with an error other than EOF; 3 = a race report whose
+// frames carry arguments. The snapshot returned is
 // named (or not) all the same.
 //
 //verif:prop C15
 //verif:param opt 0..3
-//verif:param tail 0..2
+//verif:param tail 0..3
 func VH_C15_Gate(opt, tail int) {
 	root := vTempRoot()
 	vSetFile(root + "/unrelated")
@@ -235,13 +238,18 @@ func VH_C15_Gate(opt, tail int) {
 	if tail == 1 {
 		dump = append(dump, []byte("goroutine 3 [running]:\njunk\n")...)
 	}
+	if tail == 3 {
+		// a race report whose frames carry arguments (the parser accepts them)
+		dump = []byte(vhSep + "\n" + vhWarn + "\nWrite at 0x00c000010000 by goroutine 1:\n  main.f(0xc000012340, 0xc000012340)\n      /x/a.go:1 +0x1\n\n" +
+			"Previous read at 0x00c000010000 by goroutine 2:\n  main.g(0xc000012340)\n      /x/a.go:2 +0x1\n\n" + vhSep + "\n")
+	}
 	s, _, err := ScanSnapshot(&vhFeeder{data: dump, failure: tail == 2}, &vhSink{}, opts)
 	vReach("scanned with options")
 	vAssert(s != nil && len(s.Goroutines) >= 2, "dump parsed")
 	if s == nil {
 		return
 	}
-	if tail != 0 {
+	if tail == 1 || tail == 2 {
 		vAssert(err != nil && err != io.EOF, "the snapshot comes back together with an error")
 	}
 	for _, g := range s.Goroutines {
